@@ -433,6 +433,15 @@ func (x *Exec) appendOp(st *State, s, t *Val, rt types.Type) *Val {
 			Implies(Lt(j, base), Eq(Select(newArr, j), Select(oldArr, j))),
 			Implies(And(Le(base, j), Lt(j, Add(base, slLen(tv)))), Eq(Select(newArr, j), Select(tArr, Add(slOff(tv), Sub(j, base)))))),
 			[]*Term{Select(newArr, j)}))
+		// the same in terms of the at-function (triggers for quantified contract clauses)
+		atn := "at." + sanitize(es.Name)
+		DeclareFun(atn, es, asort, SInt, SInt)
+		k := BoundVar("k", SInt)
+		off := slOff(s.T)
+		x.ctx.assume(st, Forall([]*Term{k}, And(
+			Implies(And(Le(IntLit(0), k), Lt(k, slLen(s.T))), Eq(App(atn, es, newArr, off, k), App(atn, es, oldArr, off, k))),
+			Implies(And(Le(slLen(s.T), k), Lt(k, Add(slLen(s.T), slLen(tv)))), Eq(App(atn, es, newArr, off, k), App(atn, es, tArr, slOff(tv), Sub(k, slLen(s.T)))))),
+			[]*Term{App(atn, es, newArr, off, k)}))
 	}
 	x.ctx.hwrite(st, name, asort, ref, newArr)
 	return &Val{T: mkSlice(ref, slOff(s.T), Add(slLen(s.T), slLen(tv))), Typ: rt}
